@@ -429,4 +429,177 @@ theorem tags_reachable (c : Cfg) (s : State) (h : (lts c).Reachable s) : ∀ p, 
   (Lts.invariant (lts c) (fun s => (∀ p, p ∈ s.got → p.1 < c.n) ∧ (∀ i v, s.pc = .send i v → i < c.n))
     (tags_init c) (fun s l s' hi hs => tags_step c s s' l hi hs) s h).1
 
+def pcW : Pc → Nat
+  | .sel => 2 | .send _ _ => 4 | .nil _ => 1 | .closing => 1 | .done => 0
+
+def chW (ch : Chan) : Nat := 5 * ch.buf.length + (if ch.closed then 0 else 1)
+
+/-- every step (from a state where `pc = nil i` implies `ci` is still non-nil) strictly decreases this -/
+def measure (c : Cfg) (s : State) : Nat :=
+  sumTo (fun i => 6 * (s.pend i).length) c.n + sumTo (fun i => chW (s.ch i)) c.n +
+  sumTo (fun i => if s.liveIn i then 2 else 0) c.n + pcW s.pc +
+  (if s.outClosed then 0 else 1) + (if s.seen then 0 else 1) + (if s.panicked then 0 else 1)
+
+/-- the goroutine is about to nil a channel variable that is still non-nil -/
+def NilLive (c : Cfg) (s : State) : Prop := ∀ i, s.pc = .nil i → s.liveIn i = true ∧ i < c.n
+
+theorem nilLive_step (c : Cfg) (s s' : State) (l : Label) (hi : NilLive c s) (hs : step c s l = some s') :
+    NilLive c s' := by
+  cases l <;> simp only [step] at hs <;> (repeat' split at hs) <;> (try cases hs) <;>
+    (first
+      | exact hi
+      | (intro i h; cases h; done)
+      | (intro i h; injection h with h; subst h; exact ⟨by simp_all, by omega⟩)
+      | (intro i h
+         rcases loopHead_cases c _ with h' | h' <;> rw [h'.1] at h <;> cases h))
+
+theorem pcW_loopHead_le (c : Cfg) (live : Nat → Bool) : pcW (loopHead c live) ≤ 2 := by
+  rcases loopHead_cases c live with h | h <;> rw [h.1] <;> simp [pcW]
+
+theorem measure_decreases (c : Cfg) (s s' : State) (l : Label) (hn : NilLive c s)
+    (hs : step c s l = some s') : measure c s' < measure c s := by
+  have eSel : pcW Pc.sel = 2 := rfl
+  have eClosing : pcW Pc.closing = 1 := rfl
+  have eDone : pcW Pc.done = 0 := rfl
+  cases l with
+  | pSend i =>
+    simp only [step] at hs
+    split at hs
+    · cases hs
+    · split at hs
+      · cases hs
+      · next hnle =>
+        have hin : i < c.n := by omega
+        split at hs
+        · cases hs
+        · next v rest hpe =>
+          have h1 := sumTo_upd_lt (fun l : List Nat => 6 * l.length) s.pend i rest c.n hin
+          simp only [hpe, List.length_cons] at h1
+          split at hs
+          · cases hs
+          · split at hs
+            · cases hs
+              have h2 := sumTo_upd_lt chW s.ch i { s.ch i with buf := (s.ch i).buf ++ [v] } c.n hin
+              simp only [chW, List.length_append, List.length_cons, List.length_nil] at h2
+              simp only [measure, chW]
+              omega
+            · split at hs
+              · next hj =>
+                cases hs
+                have e : pcW (Pc.send i v) = 4 := rfl
+                simp only [measure, hj.2.1, eSel, e]
+                omega
+              · cases hs
+  | pClose i =>
+    simp only [step] at hs
+    split at hs
+    · cases hs
+    · split at hs
+      · cases hs
+      · next hnle =>
+        have hin : i < c.n := by omega
+        split at hs
+        · next hc =>
+          cases hs
+          have h2 := sumTo_upd_lt chW s.ch i { s.ch i with closed := true } c.n hin
+          simp only [chW, hc.2, Bool.false_eq_true, if_false, if_true] at h2
+          simp only [measure, chW]
+          omega
+        · cases hs
+  | sRecv i =>
+    simp only [step] at hs
+    split at hs
+    · cases hs
+    · split at hs
+      · cases hs
+      · next hnle =>
+        have hin : i < c.n := by omega
+        split at hs
+        · next hc =>
+          split at hs
+          · next v rest hb =>
+            cases hs
+            have h2 := sumTo_upd_lt chW s.ch i { s.ch i with buf := rest } c.n hin
+            simp only [chW, hb, List.length_cons] at h2
+            have e : pcW (Pc.send i v) = 4 := rfl
+            simp only [measure, chW, hc.1, eSel, e]
+            omega
+          · split at hs
+            · cases hs
+              have e : pcW (Pc.nil i) = 1 := rfl
+              simp only [measure, hc.1, eSel, e]
+              omega
+            · cases hs
+        · cases hs
+  | sNil =>
+    simp only [step] at hs
+    split at hs
+    · cases hs
+    · split at hs
+      · next i hpc =>
+        cases hs
+        obtain ⟨hl, hin⟩ := hn i hpc
+        have h3 := sumTo_upd_lt (fun b : Bool => if b then 2 else 0) s.liveIn i false c.n hin
+        simp only [hl, if_true, Bool.false_eq_true, if_false] at h3
+        have := pcW_loopHead_le c (upd s.liveIn i false)
+        have e : pcW (Pc.nil i) = 1 := rfl
+        simp only [measure, hpc, e]
+        omega
+      · cases hs
+  | sSend =>
+    simp only [step] at hs
+    split at hs
+    · cases hs
+    · next hp =>
+      have hp' : s.panicked = false := by simpa using hp
+      split at hs
+      · split at hs
+        · cases hs
+          simp only [measure, hp', Bool.false_eq_true, if_false, if_true]
+          omega
+        · cases hs
+      · cases hs
+  | sClose =>
+    simp only [step] at hs
+    split at hs
+    · cases hs
+    · next hp =>
+      have hp' : s.panicked = false := by simpa using hp
+      split at hs
+      · next hpc =>
+        split at hs
+        · cases hs
+          simp only [measure, hp', Bool.false_eq_true, if_false, if_true]
+          omega
+        · next hoc =>
+          have hoc' : s.outClosed = false := by simpa using hoc
+          cases hs
+          simp only [measure, hpc, hoc', eClosing, eDone, Bool.false_eq_true, if_false, if_true]
+          omega
+      · cases hs
+  | cTake =>
+    simp only [step] at hs
+    split at hs
+    · cases hs
+    · split at hs
+      · cases hs
+      · split at hs
+        · next i v hpc =>
+          cases hs
+          have := pcW_loopHead_le c s.liveIn
+          have e : pcW (Pc.send i v) = 4 := rfl
+          simp only [measure, hpc, e]
+          omega
+        · cases hs
+  | cSeeClose =>
+    simp only [step] at hs
+    split at hs
+    · cases hs
+    · split at hs
+      · next hc =>
+        cases hs
+        simp only [measure, hc.1, Bool.false_eq_true, if_false, if_true]
+        omega
+      · cases hs
+
 end Goderive.K.JoinSelect
